@@ -601,6 +601,17 @@ func (mf *MultiFileAppendable) DiscardUpto(off int64) error {
 }
 
 func (mf *MultiFileAppendable) appendableFor(off int64) (appendable.Appendable, error) {
+	for {
+		app, err := mf.appendableForOnce(off)
+		if errors.Is(err, cache.ErrKeyNotFound) {
+			// the handle was evicted between its insertion and the final lookup: open it again
+			continue
+		}
+		return app, err
+	}
+}
+
+func (mf *MultiFileAppendable) appendableForOnce(off int64) (appendable.Appendable, error) {
 	mf.mutex.Lock()
 
 	if mf.closed {
